@@ -164,6 +164,9 @@ pub struct MCase {
     /// flex: the multisig is a (weight 1) member of its own group
     #[serde(default)]
     pub self_member: bool,
+    /// flex, C15: the last actor is a contract (a relay its operator acts through) instead of a plain account
+    #[serde(default)]
+    pub contract_actor: bool,
 }
 
 // ------------------------------------------------------------------ strategies
@@ -209,6 +212,9 @@ fn dur_for(prop: &str) -> BoxedStrategy<Dur> {
     if prop == "C06" {
         // C06 follows snapshots over long stretches more often
         prop_oneof![10 => (1u32..12).prop_map(Dur::Height), 10 => (1u32..120).prop_map(Dur::Time), 3 => Just(Dur::Height(2_500_000))].boxed()
+    } else if prop == "C05" {
+        // a zero period is accepted at instantiation: every proposal is born expired (nobody but the proposer votes)
+        prop_oneof![24 => dur(), 1 => Just(Dur::Height(0)), 1 => Just(Dur::Time(0))].boxed()
     } else {
         dur()
     }
@@ -382,18 +388,31 @@ pub fn mcase_strategy(prop: &str, tier: Tier) -> BoxedStrategy<MCase> {
                 let p = Op::Propose { by, msgs: vec![], latest: Latest::None, pay: if pay == Pay::None { Pay::None } else { Pay::Exact } };
                 vec![p.clone(), p]
             }).boxed();
+            // C06: the proposer leaves the group right after proposing, somebody tries to close the proposal at
+            // once, the snapshot's voters vote on
+            let leaver = (actor(), by_member(), any::<u16>(), any::<u16>())
+                .prop_map(|(a, closer, k1, k2)| {
+                    vec![
+                        Op::Propose { by: By::Actor(a), msgs: vec![], latest: Latest::None, pay: Pay::Exact },
+                        Op::GroupUpdate { add: vec![], remove: vec![a] },
+                        Op::Close { by: closer, prop: Target::Any(u16::MAX) },
+                        Op::Vote { by: By::Fresh(k1), prop: Target::Any(u16::MAX), vote: 0 },
+                        Op::Vote { by: By::Fresh(k2), prop: Target::Any(u16::MAX), vote: 0 },
+                    ]
+                })
+                .boxed();
             let groups = if prop_s == "C05" {
                 prop_oneof![12 => single, 3 => campaign, 2 => retry, 1 => twice].boxed()
             } else if prop_s == "C06" {
-                prop_oneof![12 => single, 3 => campaign, 1 => long_haul].boxed()
+                prop_oneof![12 => single, 3 => campaign, 1 => long_haul, 1 => leaver].boxed()
             } else {
                 prop_oneof![12 => single, 3 => campaign].boxed()
             };
             let silent = prop_oneof![5 => Just(vec![]), 1 => proptest::collection::vec(weight(), 1..4), 2 => proptest::collection::vec(weight(), 4..12)];
             (Just(fl), voters(&prop_s, fixed), silent, thr_spec(), dur_for(&prop_s), proptest::collection::vec(groups, 0..max_ops).prop_map(|g| g.into_iter().flatten().collect::<Vec<_>>()))
         })
-        .prop_flat_map(|c| (Just(c), proptest::bool::weighted(0.15)))
-        .prop_map(|((flavour, voters, silent, thr, period, ops), self_member)| MCase { flavour, silent, voters, thr, period, ops, self_member })
+        .prop_flat_map(|c| (Just(c), proptest::bool::weighted(0.15), proptest::bool::weighted(0.2)))
+        .prop_map(|((flavour, voters, silent, thr, period, ops), self_member, contract_actor)| MCase { flavour, silent, voters, thr, period, ops, self_member, contract_actor })
         .boxed()
 }
 
@@ -505,6 +524,8 @@ struct World {
     fixed: bool,
     executor: ExecSpec,
     deposit: Option<DepSpec>,
+    /// the actor that is a contract, if any
+    relay: Option<Addr>,
 }
 
 fn v(prop: &str, sig: &str, msg: String) -> Violation {
@@ -665,8 +686,19 @@ fn status_code(s: Status) -> u8 {
 pub fn run_mcase(prop: &str, case: &MCase, ctx: &mut CaseCtx) -> Result<(), Violation> {
     let mut app = App::default();
     // block time keeps its sub-second part; the interpreter reasons in nanoseconds
-    let actors: Vec<Addr> = (0..N_ACTORS).map(|i| app.api().addr_make(&format!("actor{i}"))).collect();
+    let mut actors: Vec<Addr> = (0..N_ACTORS).map(|i| app.api().addr_make(&format!("actor{i}"))).collect();
     let faucet = app.api().addr_make("faucet");
+    // C15: the last actor may be a contract its operator (the faucet) acts through; it pays, votes, executes and
+    // closes like any member, and holds its tokens like any account
+    let relay: Option<Addr> = if case.contract_actor && prop == "C15" && matches!(case.flavour, Flavour::Flex { .. }) {
+        let code = app.store_code(relay_contract());
+        let a = try_instantiate(&mut app, code, &faucet, &Empty {}, "relay").expect("relay");
+        actors[N_ACTORS - 1] = a.clone();
+        ctx.count("contract_actor");
+        Some(a)
+    } else {
+        None
+    };
     let admin = app.api().addr_make("group-admin");
     let fixed = matches!(case.flavour, Flavour::Fixed);
     let (executor, deposit, hook, settle_blocks) = match &case.flavour {
@@ -804,7 +836,7 @@ pub fn run_mcase(prop: &str, case: &MCase, ctx: &mut CaseCtx) -> Result<(), Viol
         });
     }
 
-    let mut w = World { app, actors, faucet, multisig, group, recorder, cw20, fixed, executor, deposit };
+    let mut w = World { app, actors, faucet, multisig, group, recorder, cw20, fixed, executor, deposit, relay };
     let n_addr = N_ACTORS; // index of the multisig in Obs.bal
 
     let mut pre = w.observe().map_err(qerr)?;
@@ -1082,7 +1114,7 @@ pub fn run_mcase(prop: &str, case: &MCase, ctx: &mut CaseCtx) -> Result<(), Viol
                         };
                         if let (Some(a), Some(tok)) = (allow, w.cw20.clone()) {
                             if a > 0 {
-                                let _ = try_exec(&mut w.app, &w.actors[by].clone(), &tok, &Cw20ExecuteMsg::IncreaseAllowance { spender: w.multisig.to_string(), amount: Uint128::new(a), expires: None }, &[]);
+                                let _ = exec_as(&mut w.app, w.relay.clone().as_ref(), &w.faucet.clone(), &w.actors[by].clone(), &tok, &Cw20ExecuteMsg::IncreaseAllowance { spender: w.multisig.to_string(), amount: Uint128::new(a), expires: None }, &[]);
                             }
                         }
                     } else {
@@ -1108,7 +1140,7 @@ pub fn run_mcase(prop: &str, case: &MCase, ctx: &mut CaseCtx) -> Result<(), Viol
                 // proposal twice in a row (each submission is a proposal of its own, with its own id)
                 let (title, description) = if msgs.is_empty() { ("plain".to_string(), "no messages".to_string()) } else { (format!("t{tag}"), format!("d{tag}")) };
                 let msg = cw3_fixed_multisig::msg::ExecuteMsg::Propose { title, description, msgs: cmsgs, latest: latest_e };
-                let r = try_exec(&mut w.app, &w.actors[by].clone(), &w.multisig.clone(), &msg, &funds);
+                let r = exec_as(&mut w.app, w.relay.clone().as_ref(), &w.faucet.clone(), &w.actors[by].clone(), &w.multisig.clone(), &msg, &funds);
                 let id = r.as_ref().ok().and_then(|resp| {
                     resp.events.iter().flat_map(|e| e.attributes.iter()).find(|a| a.key == "proposal_id").and_then(|a| a.value.parse::<u64>().ok())
                 });
@@ -1119,7 +1151,7 @@ pub fn run_mcase(prop: &str, case: &MCase, ctx: &mut CaseCtx) -> Result<(), Viol
                 let by = pick_by(by, target);
                 let id = target.map(|i| models[i].id).unwrap_or(999);
                 let vv = to_vote(*vote);
-                let r = try_exec(&mut w.app, &w.actors[by].clone(), &w.multisig.clone(), &cw3_fixed_multisig::msg::ExecuteMsg::Vote { proposal_id: id, vote: vv }, &[]);
+                let r = exec_as(&mut w.app, w.relay.clone().as_ref(), &w.faucet.clone(), &w.actors[by].clone(), &w.multisig.clone(), &cw3_fixed_multisig::msg::ExecuteMsg::Vote { proposal_id: id, vote: vv }, &[]);
                 Done::Vote { by, target, ok: r.is_ok(), vote: vv }
             }
             Op::Execute { by, prop: k } => {
@@ -1135,14 +1167,14 @@ pub fn run_mcase(prop: &str, case: &MCase, ctx: &mut CaseCtx) -> Result<(), Viol
                 } else {
                     w.actors[pick_by(by, target)].clone()
                 };
-                let r = try_exec(&mut w.app, &who, &w.multisig.clone(), &cw3_fixed_multisig::msg::ExecuteMsg::Execute { proposal_id: id }, &[]);
+                let r = exec_as(&mut w.app, w.relay.clone().as_ref(), &w.faucet.clone(), &who, &w.multisig.clone(), &cw3_fixed_multisig::msg::ExecuteMsg::Execute { proposal_id: id }, &[]);
                 Done::Execute { by: who, target, ok: r.is_ok() }
             }
             Op::Close { by, prop: k } => {
                 let target = pick_target(k, 2);
                 let id = target.map(|i| models[i].id).unwrap_or(999);
                 let closer = w.actors[pick_by(by, target)].clone();
-                let r = try_exec(&mut w.app, &closer, &w.multisig.clone(), &cw3_fixed_multisig::msg::ExecuteMsg::Close { proposal_id: id }, &[]);
+                let r = exec_as(&mut w.app, w.relay.clone().as_ref(), &w.faucet.clone(), &closer, &w.multisig.clone(), &cw3_fixed_multisig::msg::ExecuteMsg::Close { proposal_id: id }, &[]);
                 Done::Close { target, ok: r.is_ok() }
             }
         };
@@ -1604,6 +1636,13 @@ fn oracle_c05(w: &World, pre: &Obs, post: &Obs, done: &Done, models: &mut [PMode
                 if models[*i].msgs.iter().any(|x| matches!(x, PMsg::ReExecute(PRef::Own) | PMsg::ReVote(_))) {
                     return Err(v(prop, "reentrant-executed", format!("{at}: proposal {} re-enters its own Execute / votes as the multisig, yet its execution succeeded", models[*i].id)));
                 }
+                // "exactly as proposed": a payment of no coins at all is refused by the bank, and so is one beyond
+                // what the multisig holds - a proposal carrying one cannot have been dispatched as proposed
+                let sends: Vec<u32> = newly.iter().flat_map(|j| models[*j].msgs.iter()).filter_map(|x| if let PMsg::BankSend { amt, .. } = x { Some(*amt) } else { None }).collect();
+                let need: u128 = sends.iter().map(|a| *a as u128).sum();
+                if sends.iter().any(|a| *a == 0) || need > pre.bal[N_ACTORS][1] {
+                    return Err(v(prop, "executed-with-undeliverable-message", format!("{at}: Execute of proposal {} succeeded although its payments {:?} (the multisig held {}) include one the bank refuses: the messages were not dispatched as proposed", models[*i].id, sends, pre.bal[N_ACTORS][1])));
+                }
                 if models[*i].failed_execute_seen {
                     models[*i].retried_ok = true;
                     ctx.flag("failed_then_retried");
@@ -1748,6 +1787,16 @@ fn oracle_c06(w: &World, pre: &Obs, post: &Obs, done: &Done, models: &mut [PMode
             if sum > o.total as u128 {
                 return Err(v(prop, "ballots-outweigh-total", format!("{at}: ballots on proposal {} sum to {sum}, more than its total_weight {}", m.id, o.total)));
             }
+        }
+    }
+    // the outcome is for the snapshot's voters to decide until the proposal expires: whoever joined or left the
+    // group since, nothing ends the voting early
+    if let Done::Close { target: Some(i), ok: true } = done {
+        if let Some(o) = pre.props.iter().find(|p| p.id == models[*i].id) {
+            if !is_expired(&o.expires, h, t) {
+                return Err(v(prop, "closed-before-expiry", format!("{at}: proposal {} (expires {:?}, status {:?} before the call) was closed while its snapshot's voters could still vote; members now {:?}, snapshot {:?}", o.id, o.expires, o.status, post.members, models[*i].snap)));
+            }
+            ctx.count("close_ok_after_expiry");
         }
     }
     if let Done::Vote { by, target: Some(i), ok: false, .. } = done {
@@ -1925,7 +1974,7 @@ pub fn decode_mcase(prop: &str, u: &mut arbitrary::Unstructured) -> MCase {
         1 => ThrSpec::Pct(d_p(u)),
         _ => ThrSpec::Quorum(d_p(u), d_p(u)),
     };
-    let period = if arb_bool(u, if prop == "C06" { 3 } else { 1 }, 25) { Dur::Height(2_500_000) } else if arb_bool(u, 1, 2) { Dur::Height(1 + arb_below(u, 11) as u32) } else { Dur::Time(1 + arb_below(u, 119) as u32) };
+    let period = if arb_bool(u, if prop == "C06" { 3 } else { 1 }, 25) { Dur::Height(2_500_000) } else if arb_bool(u, 1, 2) { Dur::Height(if prop == "C05" { arb_below(u, 12) as u32 } else { 1 + arb_below(u, 11) as u32 }) } else { Dur::Time(if prop == "C05" { arb_below(u, 120) as u32 } else { 1 + arb_below(u, 119) as u32 }) };
     let d_by = |u: &mut arbitrary::Unstructured| -> By {
         match arb_below(u, 6) {
             0 => By::Actor(d_actor(u)),
@@ -2005,5 +2054,6 @@ pub fn decode_mcase(prop: &str, u: &mut arbitrary::Unstructured) -> MCase {
     }
     let silent = if arb_bool(u, 1, 3) { (0..arb_below(u, 12)).map(|_| d_weight(u)).collect() } else { vec![] };
     let self_member = arb_bool(u, 1, 6);
-    MCase { flavour, silent, voters, thr, period, ops, self_member }
+    let contract_actor = arb_bool(u, 1, 5);
+    MCase { flavour, silent, voters, thr, period, ops, self_member, contract_actor }
 }
